@@ -106,8 +106,17 @@ impl ExprBoundaries {
                 schema.fields.len()
             )
         })?;
+        // Statistics of dictionary-encoded columns are kept in the dictionary value
+        // type, so an absent bound must be a NULL of the type of the present bound
+        // (falling back to the column type when neither bound is known).
+        let bound_type = col_stats
+            .min_value
+            .get_value()
+            .or(col_stats.max_value.get_value())
+            .map(|v| v.data_type());
         let empty_field =
-            ScalarValue::try_from(field.data_type()).unwrap_or(ScalarValue::Null);
+            ScalarValue::try_from(bound_type.as_ref().unwrap_or(field.data_type()))
+                .unwrap_or(ScalarValue::Null);
         let interval = Interval::try_new(
             col_stats
                 .min_value
